@@ -314,11 +314,19 @@ pub fn run_batch<P: Property>(p: &P, env: &Env, known: &KnownFile, threads: usiz
     }
     let subs = p.sub_batches();
     let mut plan: Vec<(usize, usize)> = vec![];
+    // development aid: QSIM_ONLY_SUB=<name> runs one sub-batch only (the evidence then covers only that)
+    let only_sub = std::env::var("QSIM_ONLY_SUB").ok();
+    if let Some(o) = &only_sub {
+        eprintln!("qsim: QSIM_ONLY_SUB={o}: only that sub-batch is run");
+    }
     for (si, sb) in subs.iter().enumerate() {
-        let n = match env.tier {
+        let mut n = match env.tier {
             Tier::Quick => sb.quick,
             Tier::Thorough => sb.thorough,
         };
+        if only_sub.as_deref().map_or(false, |o| o != sb.name) {
+            n = 0;
+        }
         for i in 0..n {
             plan.push((si, i));
         }
